@@ -7,6 +7,7 @@ import (
 	"bufio"
 	"bytes"
 	"crypto/sha256"
+	"debug/elf"
 	"encoding/binary"
 	"encoding/hex"
 	"errors"
@@ -60,7 +61,7 @@ func BuildKernsim() (string, error) {
 	tmp := bin + ".tmp"
 	args := append(append([]string(nil), flags...),
 		"-I", filepath.Join(vd, "cshim"), "-I", dir, "-I", filepath.Join(repo, "control", "kern"),
-		"-DTPROXY_C=\"" + tproxy + "\"", filepath.Join(vd, "kernsim", "kernsim.c"), "-o", tmp)
+		"-DTPROXY_C=\""+tproxy+"\"", filepath.Join(vd, "kernsim", "kernsim.c"), "-o", tmp)
 	if out, err := exec.Command("clang", args...).CombinedOutput(); err != nil {
 		return "", fmt.Errorf("clang: %v: %s", err, out)
 	}
@@ -462,20 +463,20 @@ type KEvent struct {
 }
 
 type PktRes struct {
-	Rc          int32
-	Mark        uint32
-	Cb0, Cb1    uint32
-	Redirected  uint8 // 0 no, 1 bpf_redirect, 2 bpf_redirect_peer
-	RedirIf     uint32
-	RedirFlags  uint64
-	PktTypeSet  uint32 // 0 = not set, else type+1
-	SkRefs      int32
-	SkLookups   uint32
-	SkAssigned  uint32
-	Pulls       uint32
-	Loads       uint32
-	Out         []byte
-	Events      []KEvent
+	Rc         int32
+	Mark       uint32
+	Cb0, Cb1   uint32
+	Redirected uint8 // 0 no, 1 bpf_redirect, 2 bpf_redirect_peer
+	RedirIf    uint32
+	RedirFlags uint64
+	PktTypeSet uint32 // 0 = not set, else type+1
+	SkRefs     int32
+	SkLookups  uint32
+	SkAssigned uint32
+	Pulls      uint32
+	Loads      uint32
+	Out        []byte
+	Events     []KEvent
 }
 
 func (k *KS) sendPkt(p *PktReq) {
@@ -559,7 +560,7 @@ func (k *KS) SetMax(name string, max uint32) uint32 {
 }
 
 type MapInfo struct {
-	Name                             string
+	Name                               string
 	Type, KeySize, ValSize, MaxEntries uint32
 }
 
@@ -710,4 +711,43 @@ func (k *KS) Sync() []QResult {
 	k.q = k.q[:0]
 	k.ackFlush()
 	return out
+}
+
+// BuildBpfLayout compiles kernsim/layout_bpf.c for `-target bpf` from the
+// current tproxy.c and returns the (size, offset) rows stored in its
+// .rodata.verif section, in the order of the F rows of the native LAYOUT text.
+func BuildBpfLayout() ([][2]uint64, error) {
+	bin, err := BuildKernsim() // generates layout_rows.h next to the binary
+	if err != nil {
+		return nil, err
+	}
+	dir := filepath.Dir(bin)
+	vd, repo := VerifDir(), RepoDir()
+	obj := filepath.Join(dir, "layout_bpf.o")
+	args := []string{"-target", "bpf", "-O2", "-c", "-DVERIF_BPF_TARGET", "-I", filepath.Join(vd, "cshim"), "-I", dir,
+		"-I", filepath.Join(repo, "control", "kern"), "-I/usr/include/x86_64-linux-gnu",
+		"-DTPROXY_C=\"" + filepath.Join(repo, "control", "kern", "tproxy.c") + "\"", filepath.Join(vd, "kernsim", "layout_bpf.c"), "-o", obj}
+	if out, err := exec.Command("clang", args...).CombinedOutput(); err != nil {
+		return nil, fmt.Errorf("clang -target bpf: %v: %s", err, out)
+	}
+	f, err := elf.Open(obj)
+	if err != nil {
+		return nil, err
+	}
+	defer f.Close()
+	sec := f.Section(".rodata.verif")
+	if sec == nil {
+		return nil, errors.New("no .rodata.verif section in BPF object")
+	}
+	data, err := sec.Data()
+	if err != nil {
+		return nil, err
+	}
+	bo := f.ByteOrder
+	rows := make([][2]uint64, len(data)/16)
+	for i := range rows {
+		rows[i][0] = bo.Uint64(data[i*16:])
+		rows[i][1] = bo.Uint64(data[i*16+8:])
+	}
+	return rows, nil
 }
